@@ -284,9 +284,35 @@ theorem indexKeyOf_sublist (kind : PKind) (k dig : Bytes) (h : indexKeyOf kind k
     | none => simp [hr] at h
     | some p =>
       obtain ⟨k', dg, n⟩ := p
-      simp only [hr, Option.some.injEq] at h
-      subst h
-      exact (cidRead_append k [] k' dg n hr).2.2.2
+      simp only [hr] at h
+      split at h
+      · simp only [Option.some.injEq] at h
+        subst h
+        exact (cidRead_append k [] k' dg n hr).2.2.2
+      · cases h
+
+/-- the repaired `IndexKey` of the CID primary only accepts keys without trailing bytes -/
+theorem readNode_cid_exact (k dig : Bytes) (h : indexKeyOf .cid k = some dig) :
+    readNode .cid k = some (k, []) := by
+  simp only [indexKeyOf] at h
+  cases hr : cidRead k with
+  | none => simp [hr] at h
+  | some p =>
+    obtain ⟨k', dg, n⟩ := p
+    simp only [hr] at h
+    split at h
+    · rename_i hn
+      obtain ⟨_, _, hk', _⟩ := cidRead_append k [] k' dg n hr
+      simp only [readNode, hr]
+      rw [hk', hn]
+      simp
+    · cases h
+
+theorem readNode_exact (kind : PKind) (k dig : Bytes) (h : indexKeyOf kind k = some dig) :
+    readNode kind k = some (k, []) := by
+  cases kind with
+  | mh => exact readNode_mh_exact k dig h
+  | cid => exact readNode_cid_exact k dig h
 
 /-- the digest consists of bytes of the key -/
 theorem indexKeyOf_mem (kind : PKind) (k dig : Bytes) (h : indexKeyOf kind k = some dig) :
